@@ -228,7 +228,6 @@ func c19Frames(w *World, r *Report) {
 	}
 }
 
-
 // c07PopGuard: lru.pop panics on an empty list; with the cache disabled (maxBlocks 0, trim(-1)) the list is empty.
 // Every call of pop must be dominated by the true edge of `len(l.cache) > k` (k a constant >= 0) or `!= 0`.
 func c07PopGuard(w *World, r *Report) {
